@@ -13,8 +13,10 @@ MUTS = [
   "\t\tif !r.Decided {\n\t\t\tbreak\n\t\t}", "\t\tif !r.Decided {\n\t\t\tcontinue\n\t\t}"),
  ("M04", "C04", "src/hashgraph/event.go", "frame events sorted by descending Lamport timestamp",
   "\t\treturn a[i].LamportTimestamp < a[j].LamportTimestamp", "\t\treturn a[i].LamportTimestamp > a[j].LamportTimestamp"),
- ("M05", "C05", "src/node/core.go", "pools trimmed by their current length after the insertion (drops what the commit callback / a nested submission added)",
-  "\tc.transactionPool = c.transactionPool[txs:]", "\t_ = txs\n\tc.transactionPool = c.transactionPool[len(c.transactionPool):]"),
+ ("M05", "C05", "src/node/core.go", "transaction pool trimmed before the insertion of the self-event (a failed insertion loses the payload)",
+  "\tif err := c.signAndInsertSelfEvent(newHead); err != nil {", "\tc.transactionPool = c.transactionPool[txs:]\n\ttxs = 0\n\tif err := c.signAndInsertSelfEvent(newHead); err != nil {"),
+ ("M05b", "C05", "src/node/core.go", "own block signatures created by the commit callback during the insertion are dropped with the gossiped ones",
+  "\tc.selfBlockSignatures.RemoveSlice(sigs)", "\tc.selfBlockSignatures = hg.NewSigPool()"),
  ("M06", "C06", "src/node/core.go", "busy() no longer looks at the transaction pool",
   "\t\tlen(c.transactionPool) > 0 ||\n", ""),
  ("M10", "C10", "src/node/core.go", "validator-set change effective at round-received + 5",
